@@ -24,9 +24,20 @@ def u(n):
     return ast.unparse(n)
 
 
-COQ_TY = {"Z": "Z", "B": "bool", "Pos": "(Z * Z)", "VB": "list bool", "MB": "list (list bool)", "VPos": "list (Z * Z)", "VZ": "list Z"}
+COQ_TY = {"Z": "Z", "B": "bool", "Pos": "(Z * Z)", "VB": "list bool", "MB": "list (list bool)", "VPos": "list (Z * Z)", "VZ": "list Z",
+          "MZ": "list (list Z)", "PB": "(bool * bool)", "VPB": "list (bool * bool)", "Ext": "unit", "Key": "unit"}
 
-PRELUDE = r'''Definition lax_switch {A B : Type} (i : Z) (fs : list (A -> B)) (d : A -> B) (x : A) : B :=
+PRELUDE = r'''(* element-wise operations on small fixed-rank arrays: a (2,) integer array is a pair, an (N, N) integer array a list of rows *)
+Fixpoint zip_with {A B C : Type} (f : A -> B -> C) (a : list A) (b : list B) : list C :=
+  match a, b with x :: a', y :: b' => f x y :: zip_with f a' b' | _, _ => [] end.
+Definition pos_cmp (f : Z -> Z -> bool) (p : Z * Z) (k : Z) : bool * bool := (f (fst p) k, f (snd p) k).
+Definition pb_and (a b : bool * bool) : bool * bool := (fst a && fst b, snd a && snd b).
+Definition pb_all (a : bool * bool) : bool := fst a && snd a.
+Definition m_cmp (f : Z -> Z -> bool) (a b : list (list Z)) : list (list bool) := zip_with (zip_with f) a b.
+Definition m_and (a b : list (list bool)) : list (list bool) := zip_with (zip_with andb) a b.
+Definition m_sum (a : list (list bool)) : Z := zsum (map b2z (concat a)).
+Definition m_eqb (a b : list (list Z)) : bool := list_eqb (list_eqb Z.eqb) a b.      (* jnp.array_equal on equally shaped arrays *)
+Definition lax_switch {A B : Type} (i : Z) (fs : list (A -> B)) (d : A -> B) (x : A) : B :=
   nth (Z.to_nat (Z.max 0 (Z.min (zlen fs - 1) i))) fs d x.
 '''
 
@@ -65,6 +76,8 @@ class Tr:
                 return c, ("fn", pts, rt)
             raise Unsupported("unknown name " + n.id)
         if isinstance(n, ast.Attribute):
+            if u(n).startswith("self.") and "self" not in self.env and u(n)[5:] in S["self_attrs"] and "." in u(n)[5:]:
+                return u(n)[5:].replace(".", "_"), S["self_attrs"][u(n)[5:]]
             if isinstance(n.value, ast.Name) and n.value.id == "self" and "self" not in self.env:
                 if n.attr in S["self_attrs"]:
                     return n.attr, S["self_attrs"][n.attr]
@@ -92,6 +105,14 @@ class Tr:
                 return "(%s %s %s)" % (a, "||" if isinstance(n.op, ast.BitOr) else "&&", b), "B"
             if isinstance(n.op, (ast.Add, ast.Sub, ast.Mult)) and ta == tb == "Z":
                 return "(%s %s %s)" % (a, {ast.Add: "+", ast.Sub: "-", ast.Mult: "*"}[type(n.op)], b), "Z"
+            if isinstance(n.op, ast.Add) and ta == "Pos" and tb == "VPos":     # (2,) + (K, 2) broadcasts over the K rows
+                return "(map (fun m_ : Z * Z => (fst %s + fst m_, snd %s + snd m_)) %s)" % (a, a, b), "VPos"
+            if isinstance(n.op, ast.BitAnd) and ta == tb == "PB":
+                return "(pb_and %s %s)" % (a, b), "PB"
+            if isinstance(n.op, ast.BitAnd) and ta == tb == "VPB":
+                return "(zip_with pb_and %s %s)" % (a, b), "VPB"
+            if isinstance(n.op, ast.BitAnd) and ta == tb == "MB":
+                return "(m_and %s %s)" % (a, b), "MB"
             if isinstance(n.op, ast.Add) and ta == tb == "Pos":       # jnp.array([r, c]) + move
                 return "(fst %s + fst %s, snd %s + snd %s)" % (a, b, a, b), "Pos"
             raise Unsupported("binary operator %s on %s, %s" % (type(n.op).__name__, ta, tb))
@@ -103,6 +124,13 @@ class Tr:
                 sym = {ast.GtE: ">=?", ast.Gt: ">?", ast.LtE: "<=?", ast.Lt: "<?", ast.Eq: "=?"}.get(op)
                 if sym:
                     return "(%s %s %s)" % (a, sym, b), "B"
+            fsym = {ast.GtE: "Z.geb", ast.Gt: "Z.gtb", ast.LtE: "Z.leb", ast.Lt: "Z.ltb", ast.Eq: "Z.eqb"}.get(op)
+            if ta == "Pos" and tb == "Z" and fsym:
+                return "(pos_cmp %s %s %s)" % (fsym, a, b), "PB"
+            if ta == "VPos" and tb == "Z" and fsym:
+                return "(map (fun p_ : Z * Z => pos_cmp %s p_ %s) %s)" % (fsym, b, a), "VPB"
+            if ta == tb == "MZ" and op in (ast.Eq, ast.NotEq):
+                return "(m_cmp (fun x_ y_ => %s(x_ =? y_)) %s %s)" % ("negb " if op is ast.NotEq else "", a, b), "MB"
             if ta == tb == "Pos" and op is ast.Eq:
                 return "(Position_eq %s %s)" % (a, b), "B"
             raise Unsupported("comparison %s on %s, %s" % (op.__name__, ta, tb))
@@ -112,6 +140,14 @@ class Tr:
                 i, ti = self.expr(n.slice)
                 if ti == "Z":
                     return "(jget false %s %s)" % (v, i), "B"
+            if t == "VPos" and not isinstance(n.slice, ast.Tuple):
+                i, ti = self.expr(n.slice)
+                if ti == "Z":
+                    return "(jget (0, 0) %s %s)" % (v, i), "Pos"
+            if t == "MZ" and isinstance(n.slice, ast.Call) and u(n.slice.func) == "tuple" and len(n.slice.args) == 1:
+                pp, tp = self.expr(n.slice.args[0])
+                if tp == "Pos":
+                    return "(gget 0 %s (fst %s) (snd %s))" % (v, pp, pp), "Z"
             if t == "MB" and isinstance(n.slice, ast.Tuple) and len(n.slice.elts) == 2:
                 (r, tr), (c, tc) = self.expr(n.slice.elts[0]), self.expr(n.slice.elts[1])
                 if tr == tc == "Z":
@@ -122,11 +158,17 @@ class Tr:
             if a.defaults or a.kwonlyargs or a.vararg or a.kwarg:
                 raise Unsupported("lambda signature")
             want = getattr(n, "_param_types", None)
+            if not a.args:
+                body, tb = self.expr(n.body)
+                return body, ("thunk", tb)
             if want is None or len(want) != len(a.args):
                 raise Unsupported("lambda in a position where its parameter types are unknown")
             sub = self.fork({x.arg: t for x, t in zip(a.args, want)})
             body, tb = sub.expr(n.body)
             return "(fun %s => %s)" % (" ".join("(%s : %s)" % (x.arg, COQ_TY[t]) for x, t in zip(a.args, want)), body), ("fn", list(want), tb)
+        if isinstance(n, ast.Tuple):
+            vs = [self.expr(e) for e in n.elts]
+            return "(" + ", ".join(v for v, _ in vs) + ")", ("tuple", [t for _, t in vs])
         if isinstance(n, ast.Call):
             return self.call(n)
         raise Unsupported("expression " + ast.dump(n)[:160])
@@ -152,7 +194,7 @@ class Tr:
             if ti != "Z" or len(rts) != 1 or any(t[0] != "fn" for _, t in fs):
                 raise Unsupported("switch types")
             return "(lax_switch %s [%s] %s %s)" % (i, "; ".join(v for v, _ in fs), fs[-1][0], x), fs[0][1][2]
-        if f == "jax.lax.cond" and len(n.args) >= 3 and not kws:
+        if f == "jax.lax.cond" and len(n.args) > 3 and not kws:
             c, tc = self.expr(n.args[0])
             xs = [self.expr(x) for x in n.args[3:]]
             g, tg = self.expr(n.args[1])
@@ -165,6 +207,56 @@ class Tr:
                     raise Unsupported("cond(done, termination, transition, reward, observation) shape")
                 return "(if %s then %s [%s] else %s [%s])" % (c, g, r[0], h, r[0]), "TS"
             return "(if %s then %s %s else %s %s)" % (c, g, " ".join(v for v, _ in xs), h, " ".join(v for v, _ in xs)), tg[2]
+        if f in ("jax.lax.cond", "lax.cond") and len(n.args) == 3 and not kws:
+            c, tc = self.expr(n.args[0])
+            (g, tg), (h, th) = self.expr(n.args[1]), self.expr(n.args[2])
+            if tc == "B" and tg[0] == "thunk" and th[0] == "thunk" and tg[1] == th[1]:
+                return "(if %s then %s else %s)" % (c, g, h), tg[1]
+            raise Unsupported("cond with thunks: types %s %s" % (tg, th))
+        if f == "jnp.all" and len(n.args) == 1:
+            v, t = self.expr(n.args[0])
+            if t == "PB" and not kws:
+                return "(pb_all %s)" % v, "B"
+            if t == "VPB" and [(k, u(x)) for k, x in kws.items()] == [("axis", "-1")]:
+                return "(map pb_all %s)" % v, "VB"
+            raise Unsupported("jnp.all on %s" % (t,))
+        if f == "jnp.sum" and len(n.args) == 1 and not kws:
+            v, t = self.expr(n.args[0])
+            if t == "MB":
+                return "(m_sum %s)" % v, "Z"
+        if f == "jnp.array_equal" and len(n.args) == 2 and not kws:
+            (a, ta), (b, tb) = self.expr(n.args[0]), self.expr(n.args[1])
+            if ta == tb == "MZ":
+                return "(m_eqb %s %s)" % (a, b), "B"
+        if isinstance(n.func, ast.Attribute) and n.func.attr == "astype" and len(n.args) == 1 and u(n.args[0]) == "float" and not kws:
+            v, t = self.expr(n.func.value)
+            if t == "Z":
+                return v, "Z"            # reward code of an integral float
+            if t == "B":
+                return "(b2z %s)" % v, "Z"
+        if isinstance(n.func, ast.Attribute) and n.func.attr == "set" and len(n.args) == 1 and not kws and isinstance(n.func.value, ast.Subscript) \
+                and isinstance(n.func.value.value, ast.Attribute) and n.func.value.value.attr == "at":
+            arr, ta = self.expr(n.func.value.value.value)
+            idx = n.func.value.slice
+            val, tv = self.expr(n.args[0])
+            if ta == "MZ" and tv == "Z" and isinstance(idx, ast.Call) and u(idx.func) == "tuple" and len(idx.args) == 1:
+                pp, tp = self.expr(idx.args[0])
+                if tp == "Pos":
+                    return "(gset %s (fst %s) (snd %s) %s)" % (arr, pp, pp, val), "MZ"
+            raise Unsupported(".at[].set on %s" % (ta,))
+        if f in S.get("functions", {}) and not n.args and set(kws) <= {"reward", "observation", "extras"} and "observation" in kws:
+            c, pts, rt = S["functions"][f]
+            _, to = self.expr(kws["observation"])
+            if to != "Obs" or rt != "TS":
+                raise Unsupported("%s(...) keyword form" % f)
+            if "extras" in kws:
+                self.expr(kws["extras"])
+            if "reward" in kws:
+                r, tr_ = self.expr(kws["reward"])
+                if tr_ != "Z":
+                    raise Unsupported("%s: reward type" % f)
+                return "(%s [%s])" % (S["ts_kw"][f], r), "TS"
+            return S["ts_kw"][f], "TS"
         if f == "jnp.any" and len(n.args) == 1 and not kws:
             v, t = self.expr(n.args[0])
             if t == "VB":
@@ -244,6 +336,8 @@ class Tr:
                         raise Unsupported("return types %s, expected %s" % ([t for _, t in vs], ret_types))
                     return "\n    ".join(out + ["(" + ", ".join(v for v, _ in vs) + ")"]), tuple(t for _, t in vs)
                 v, t = self.expr(s.value)
+                if isinstance(t, tuple) and t[0] == "tuple" and ret_types is not None and t[1] == ret_types:
+                    return "\n    ".join(out + [v]), t
                 if ret_types is not None and [t] != ret_types:
                     raise Unsupported("return type %s, expected %s" % (t, ret_types))
                 return "\n    ".join(out + [v]), t
@@ -256,6 +350,10 @@ class Tr:
                     continue
                 if isinstance(tgt, ast.Tuple) and all(isinstance(e, ast.Name) for e in tgt.elts) and len(tgt.elts) == 2:
                     v, t = self.expr(s.value)
+                    if isinstance(t, tuple) and t[0] == "tuple" and len(t[1]) == 2:
+                        out.append("let '(%s, %s) := %s in" % (tgt.elts[0].id, tgt.elts[1].id, v))
+                        self.env[tgt.elts[0].id], self.env[tgt.elts[1].id] = t[1]
+                        continue
                     if t != "Pos":
                         raise Unsupported("tuple assignment from a %s" % (t,))
                     out.append("let '(%s, %s) := %s in" % (tgt.elts[0].id, tgt.elts[1].id, v))
